@@ -59,6 +59,8 @@ func NewProtModel(model int, usegamma bool, alpha float64) (*ProtModel, error) {
 	default:
 		return nil, fmt.Errorf("this protein model is not implemented")
 	}
+	// the published frequency tables are rounded: renormalise so that they sum to 1
+	normalizeFreqs(pi)
 	return &ProtModel{
 		pi,
 		m,
@@ -70,6 +72,17 @@ func NewProtModel(model int, usegamma bool, alpha float64) (*ProtModel, error) {
 		alpha,
 		usegamma,
 	}, nil
+}
+
+// Divides the frequencies by their sum
+func normalizeFreqs(pi []float64) {
+	sum := .0
+	for _, f := range pi {
+		sum += f
+	}
+	for i := range pi {
+		pi[i] /= sum
+	}
 }
 
 // Returns code of the model
